@@ -240,6 +240,9 @@ def generate(run_seed, fault_config="all", jit=False, budget=4.0, max_pto=2, all
         per = cards.est_cost(th, ob, name, jit) * 2 + cards.sv_cost(th, ob, jit) + 0.03
         room = max(1, int((budget * 0.6 - spent) / max(per, 1e-6)))
         npts = min(cfg.randint(1, 5), room)
+        pto_ = th.get("PTODIS") if th.get("PTODIS") is not None else th["PTO"]
+        if pto_ >= 2 and th.get("FactScaleVar", True) is not False and not base:
+            npts = max(npts, 2)  # the scale-variation memo is only shared if there is a second point
         if cfg.random() < 0.04:
             pts = []
         else:
